@@ -191,6 +191,13 @@ class Monitor:
         st["seen"][n] = st["seen"].get(n, 0) + 1
         if n in ("request_complete", "response_complete", "transaction_complete") and st["seen"][n] > 1:
             return ("complete-twice", "%s delivered %d times for tx %d" % (n, st["seen"][n], e.tx))
+        # progress never moves backwards except the documented restart after an interim 100 response: response progress from HEADERS
+        # back to LINE (first seen at whichever callback comes next). Checked before the callback order so that a known ordering finding at the same
+        # callback cannot hide it.
+        if e.rp < st["rp"]:
+            return ("req-progress-back", "request progress went from %d to %d for tx %d" % (st["rp"], e.rp, e.tx))
+        if e.sp < st["sp"] and not (e.sp == 1 and st["sp"] == 2):
+            return ("res-progress-back", "response progress went from %d to %d for tx %d (at %s)" % (st["sp"], e.sp, e.tx, n))
         if n in REQ_RANK:
             r = REQ_RANK[n]
             # header data of the trailer block shares the request_header_data name only through trailer_data: ranks are monotone
@@ -207,11 +214,6 @@ class Monitor:
                 return ("res-order:%s@%d" % (n, st["res"]), "%s after a later response-side callback (rank %d) for tx %d" % (n, st["res"], e.tx))
             else:
                 st["res"] = max(st["res"], r)
-        # progress never moves backwards except the documented 100-continue restart (response progress back to LINE)
-        if e.rp < st["rp"]:
-            return ("req-progress-back", "request progress went from %d to %d for tx %d" % (st["rp"], e.rp, e.tx))
-        if e.sp < st["sp"] and not (e.sp == 1 and st["sp"] in (2, 3)):
-            return ("res-progress-back", "response progress went from %d to %d for tx %d" % (st["sp"], e.sp, e.tx))
         st["rp"], st["sp"] = e.rp, e.sp
         if n == "transaction_complete":
             if not (e.rp == 5 and e.sp == 5):
